@@ -1,10 +1,20 @@
-HOOK_COMMITS = ["7de202d"]
-FIX_COMMITS = ["7a73b90", "307c7cf", "73e9739", "b6ad768", "06a0422", "37593fd", "b26bda1", "ef4414e", "83534a3", "9d32858", "8df6799", "bfa46be", "d5169bc"]
+HOOK_COMMITS = ["7de202d", "7f6c320"]
+FIX_COMMITS = ["7a73b90", "307c7cf", "73e9739", "b6ad768", "06a0422", "37593fd", "b26bda1", "ef4414e", "83534a3", "9d32858", "8df6799", "bfa46be", "d5169bc", "e984a30"]
 
 NOTE_COMMON = ("Trusted: Lean kernel (axioms propext/Classical.choice/Quot.sound only), the hand-written model's "
                "fidelity outside the sampled correspondence, rustc/std and third-party crates as black boxes, the guarded hooks.")
 
 CLAIMS = {
+    "C13": {
+        "level": "Kernel-checked, for every buffer given by its line decomposition (any line bodies without newline, last line terminated or not; every buffer "
+                 "without CR-LF clusters has one: theorem decompose), every match predicate (any regex engine) and both polarities: line_bounds gives each "
+                 "line's start and extent, the Global/NotGlobal motion returns exactly the numbers of the lines whose text (without terminator) matches / does not "
+                 "match, bottom-up, each once; -v is the complement of -g; the cursor is put on the line's first character; --else runs iff no line is selected. "
+                 "Every run compares total_lines/line_bounds and the Global motion model-vs-code (graphemes from the real segmenter, verdicts from the real regex crate) "
+                 "and runs marking commands inside -g/-v/--else on the real binary against a simulation over the reference lines.",
+        "note": NOTE_COMMON + " CR-LF texts are outside the claim (line_bounds compares graphemes with \"\\n\" while total_lines counts characters). The regex crate is a black box: its verdicts are inputs.",
+        "technique": "Lean 4 proof (induction over the line decomposition) parametric in the matcher + differential correspondence + marking-command runs on the real binary",
+    },
     "C04": {
         "level": "Kernel-checked: for every assignment of units to workers (any worker count, any stealing), every completion order, every register-bank "
                  "type and every editor core, the parallel run returns exactly the --serial result, because execute() resets the thread's registers first; each "
